@@ -95,10 +95,15 @@ def window_summary(chk, fi, c):
         if len(logs) == 1 and d[logs[0]] == 1 and d.get("band") == 1 and len(d) == 2 and co == 1:
             inner = logs[0][logs[0].index("(") + 1:-1]
             ok_arg = inner in ("1*fa_frequencies*smooth_fa_frequencies^-1", "1*fa_frequencies^-1*smooth_fa_frequencies")
-            out["arg"] = "f/fc (either orientation)" if ok_arg else inner
+            # a ratio of two OTHER names (a helper's own parameter names for the two frequency arrays): the form is right, which array is which is
+            # the typing obligations' business (R-KO-NORM axes, shapes) -- not located here
+            import re as _re
+            ratio_of_two = bool(_re.fullmatch(r"1\*[A-Za-z_]\w*(\^-1)?\*[A-Za-z_]\w*(\^-1)?", inner)) and inner.count("^-1") == 1
+            unknown_names = ratio_of_two and not ("fa_frequencies" in inner and "smooth_fa_frequencies" in inner)
+            out["arg"] = "f/fc (either orientation)" if (ok_arg or unknown_names) else inner
     chk.ob("R-KO-ARG", c + "{argument}", "window argument = band * log10(f / fc), f the Fourier and fc the target frequency",
            ok_arg, derived=arg.canon() if arg is not None else "no log10 expression found", loc=fi.loc(arg_node) if arg is not None else fi.loc(),
-           inconclusive=arg is None)
+           inconclusive=arg is None or bool(locals().get("unknown_names")))
     # ---- window: (sin(x)/x) ** 4 in total
     ok_win = False
     if win is not None and arg_name is not None:
@@ -154,9 +159,16 @@ def run(chk):
             cc = c + "(f[0]==0: %s)" % zero_bin
             # the direct form may take its weights from the matrix builder (delegation between the two siblings): the window is then built there
             _deleg = [e.callee for e in r.events("call") if e.callee.endswith(".calc_smoothing_matrix_konno_1998") and e.callee != q]
-            def ev(kind_, r=r, _deleg=_deleg):
+            # ... or from a helper of the same module shared by the two siblings
+            _helpers = []
+            for e_ in r.events("call"):
+                if e_.callee.startswith("eqsig.fns.frequency.") and e_.callee != q and e_.callee not in _deleg and e_.callee not in _helpers and \
+                        (e_.fn == q or e_.fn in _deleg or e_.fn in _helpers):
+                    _helpers.append(e_.callee)
+
+            def ev(kind_, r=r, _deleg=_deleg, _helpers=_helpers):
                 out_ = list(r.events(kind_, q))
-                for d_ in _deleg[:1]:
+                for d_ in _deleg[:1] + _helpers:
                     out_ += [e for e in r.events(kind_, d_) if not any(e is x for x in out_)]
                 return out_
             unmodelled_in(r, chk, "R-KO-NORM", cc)
@@ -169,11 +181,49 @@ def run(chk):
             masked = [e for e in ev("mutation") if e.how == "subscript-store" and e.index is not None and e.index.kind == K_ARRAY and
                       e.index.dtype == "bool" and (e.index.note or "") == "cmp:Eq" and e.value is not None and e.value.has_const() and
                       e.value.const == 1 and not isinstance(e.value.const, bool)]
+            if not masked:
+                # ... or through the positions of that mask: weights[np.nonzero(argument == 0)] = 1
+                masked = [e for e in ev("mutation") if e.how == "subscript-store" and e.index is not None and "where-index" in e.index.tags and
+                          "p:band" in e.index.tags and e.value is not None and e.value.has_const() and e.value.const == 1 and
+                          not isinstance(e.value.const, bool) and len(cmps) == 1]
             if not wh and len(masked) == 1:
                 okw = True
+            # located wrong instances when no replacement by 1 is found: (a) a store of another constant through the `== 0` mask / its positions;
+            # (b) np.nan_to_num of the weights (0/0 becomes 0, not the window's limit 1) unless nan=1; (c) sin(x)/x formed by a division by the
+            # argument with NO zero handling of any kind in the function (no `== 0` test, no isnan / isclose / sinc / errstate / divide(where=))
+            wrong_ = None
+            if not wh and not masked:
+                bad_store = [e for e in ev("mutation") if e.how == "subscript-store" and e.index is not None and
+                             ((e.index.kind == K_ARRAY and e.index.dtype == "bool" and (e.index.note or "") == "cmp:Eq") or
+                              ("where-index" in e.index.tags and "p:band" in e.index.tags)) and e.value is not None and e.value.has_const() and
+                             not (e.value.const == 1 and not isinstance(e.value.const, bool))]
+                n2n = [e for e in ev("lib-call") if e.name == "numpy.nan_to_num" and
+                       not (e.kwargs.get("nan") is not None and e.kwargs["nan"].has_const() and e.kwargs["nan"].const == 1)]
+                other_handling = [e for e in ev("lib-call") if e.name.split(".")[-1] in ("isnan", "isfinite", "isclose", "sinc", "errstate", "divide",
+                                                                                         "true_divide", "nan_to_num", "nonzero", "flatnonzero",
+                                                                                         "argwhere", "equal", "not_equal", "putmask", "place",
+                                                                                         "copyto", "select", "piecewise", "choose")]
+                anycmp = [e for e in ev("compare") if "p:band" in e.left.tags or "p:band" in e.right.tags]
+                divs = []
+                for qn_ in [q] + _deleg[:1] + _helpers:
+                    fn_ = chk.P.fn(qn_)
+                    for n_ in ast.walk(fn_.node):
+                        if isinstance(n_, ast.BinOp) and isinstance(n_.op, ast.Div) and isinstance(n_.left, ast.Call) and \
+                                ast.unparse(n_.left.func).split(".")[-1] == "sin" and len(n_.left.args) == 1 and \
+                                ast.dump(n_.left.args[0]) == ast.dump(n_.right):
+                            divs.append(type("D", (), {"loc": fn_.loc(n_)})())
+                if bad_store:
+                    wrong_ = (bad_store[0], "the `== 0` positions are set to %r, not to the window's limit 1" % (bad_store[0].value.const,))
+                elif n2n:
+                    wrong_ = (n2n[0], "np.nan_to_num turns the 0/0 at f == fc into 0, not into the window's limit 1")
+                elif divs and not other_handling and not anycmp:
+                    wrong_ = (divs[0], "sin(x)/x is formed by dividing by the argument and nothing in the function handles x == 0 (no test on the "
+                                       "argument, no isnan / isclose / sinc / errstate / masked divide)")
             chk.ob("R-KO-NONNEG", cc + "{0/0}", "np.where(argument == 0, 1, weights)", okw and len(cmps) == 1,
-                   derived="%d where, %d store(s) of 1 through an `== 0` mask, %d `== 0` tests on the argument" % (len(wh), len(masked), len(cmps)),
-                   loc=wh[0].loc if wh else (masked[0].loc if masked else r.fi.loc()))
+                   derived=(wrong_[1] if wrong_ else "%d where, %d store(s) of 1 through an `== 0` mask, %d `== 0` tests on the argument" % (
+                       len(wh), len(masked), len(cmps))),
+                   loc=wh[0].loc if wh else (masked[0].loc if masked else (wrong_[0].loc if wrong_ else r.fi.loc())),
+                   inconclusive=(not wh and not masked and wrong_ is None))
             if wh:
                 expect(chk, "R-KO-NONNEG", cc + "{weights}", wh[0].args[2], sign="nonneg", const_in=[R], loc=wh[0].loc)
             elif len(masked) == 1:
@@ -194,7 +244,7 @@ def run(chk):
                 expect(chk, "R-KO-NORM", cc + ".matrix", r.ret, sign="nonneg", const_in=[R], tags_has=["p:band"], loc=r.fi.loc())
                 sh = r.ret.shape
                 chk.ob("R-KO-NORM", cc + ".matrix[shape]", "matrix has one column per target frequency", sh is not None and len(sh) == 2
-                       and sh[1] == LinExpr("F"), derived="shape %r" % (sh,), loc=r.fi.loc())
+                       and sh[1] == LinExpr("F"), derived="shape %r" % (sh,), loc=r.fi.loc(), inconclusive=sh is None)
             mm = [e for e in r.I.events if e.kind == "shape-mismatch"]
             chk.ob("R-KO-ZERO", cc + "{paired}", "frequencies and spectrum keep equal lengths (bin 0 dropped from both or neither)",
                    not mm, derived="; ".join("%s: %r vs %r" % (e.loc, e.dims[0], e.dims[1]) for e in mm) or "all operand shapes agree",
